@@ -2,8 +2,9 @@ import os
 
 from typing import Optional
 
+from antlr4 import CommonTokenStream, FileStream
 from afmparser import AFMParser
-from afmparser import get_tree
+from afmparser.AFMLexer import AFMLexer
 
 from flamapy.core.exceptions import FlamaException
 from flamapy.core.transformations import TextToModel
@@ -31,7 +32,12 @@ class AFMReader(TextToModel):
 
     def set_parse_tree(self) -> None:
         absolute_path = os.path.abspath(self.path)
-        self.parse_tree = get_tree(absolute_path)
+        # The files are written in UTF-8 (the default encoding of FileStream is ASCII)
+        input_stream = FileStream(absolute_path, encoding='utf-8')
+        lexer = AFMLexer(input_stream)
+        stream = CommonTokenStream(lexer)
+        parser = AFMParser(stream)
+        self.parse_tree = parser.feature_model()
 
     def transform(self) -> FeatureModel:
         self.set_parse_tree()
